@@ -226,3 +226,53 @@ Lemma special_examples :
   /\ ex_result "https://h:8443/%2e/x\" "https://h:8443/x/" 5 8 8 9 14 (Some 8443) = true
   /\ match ex_parse "http://" with PErr EmptyHost => true | _ => false end = true.
 Proof. vm_compute. repeat split. Qed.
+
+(* ================= the union of classes (i)-(iv): every non-file scheme, no base ================= *)
+Definition nonfile_input (input : list N) : bool :=
+  match parse_scheme CUrlParser (input_new_trim_c0 input) with
+  | Some (sch, _) => negb (st_is_file (scheme_type_of sch))
+  | None => false
+  end.
+
+Theorem reparse_nonfile dbg hp hpo hd input u :
+  HostRT hp hpo hd -> host_above hp hpo hd -> usv_list input -> nonfile_input input = true ->
+  parse_url dbg hp hpo hd None None input = POk u ->
+  Fixpoint_of_reparse dbg hp hpo hd u /\ wf_b u = true /\ ascii (ser u).
+Proof.
+  intros HRT HAb Hu Hc Hp. unfold nonfile_input in Hc.
+  destruct (parse_scheme CUrlParser (input_new_trim_c0 input)) as [[sch rem]|] eqn:Hs; [|discriminate].
+  destruct (scheme_type_of sch) eqn:Hst; [discriminate| |].
+  - (* special non-file *)
+    assert (special_input input = true) as Hsi by (unfold special_input; rewrite Hs, Hst; reflexivity).
+    destruct (L1_special dbg hp hpo hd HRT input u HAb Hu Hsi Hp) as (C & W & A & _).
+    split; [exact (L3_special dbg hp hpo hd HRT u C) | split; assumption].
+  - destruct (inp_split_prefix_char 47 rem) as [rem'|] eqn:E47.
+    + destruct (inp_split_prefix_str s_ss rem) as [rem''|] eqn:Ess.
+      * (* authority *)
+        assert (auth_input input = true) as Hai by (unfold auth_input; rewrite Hs, Hst, Ess; reflexivity).
+        destruct (L1_auth dbg hp hpo hd HRT None input u HAb Hu Hai Hp) as (C & W & A & _).
+        split; [exact (L3_auth dbg hp hpo hd HRT u C) | split; assumption].
+      * (* no authority, '/'-led path *)
+        destruct (parse_noauth_out dbg hp hpo hd None input sch rem rem' u Hu Hs Hst Ess E47 Hp) as (segs & last & q & f & K & ->).
+        destruct (noauth_url_wf sch segs last q f K) as (W & _ & A).
+        split; [|split; [exact W | exact A]].
+        unfold Fixpoint_of_reparse, reparse. cbn [ser noauth_url]. rewrite utf8_lossy_ascii by exact A.
+        exact (reparse_noauth_form dbg hp hpo hd None sch segs last q f K).
+    + (* opaque path *)
+      destruct (parse_opaque_out dbg hp hpo hd None input sch rem u Hu Hs Hst E47 Hp) as (P & q & f & K & ->).
+      pose proof (opaque_ser_ascii sch P q f K) as A.
+      split; [|split; [exact (opaque_url_wf sch P q f K) | exact A]].
+      unfold Fixpoint_of_reparse, reparse. cbn [ser opaque_url]. rewrite utf8_lossy_ascii by exact A.
+      exact (reparse_opaque_form dbg hp hpo hd None sch P q f K).
+Qed.
+
+Theorem reparse_nonfile_HostOK dbg hp hpo hd input u :
+  HostOK hp hpo hd -> host_above hp hpo hd -> usv_list input -> nonfile_input input = true ->
+  parse_url dbg hp hpo hd None None input = POk u ->
+  Fixpoint_of_reparse dbg hp hpo hd u /\ wf_b u = true /\ ascii (ser u).
+Proof. intros HOK. exact (reparse_nonfile dbg hp hpo hd input u (HostOK_RT _ _ _ HOK)). Qed.
+
+Lemma nonfile_examples :
+  nonfile_input (B "about:blank") = true /\ nonfile_input (B "a:/x/../y") = true /\ nonfile_input (B "a://u@h:1/") = true
+  /\ nonfile_input (B "HTTPS:\h") = true /\ nonfile_input (B "file:///x") = false /\ nonfile_input (B "/relative") = false.
+Proof. vm_compute. repeat split. Qed.
